@@ -258,6 +258,11 @@ func indexCovered(f *ssa.Function, x ssa.Value, k int64, blk *ssa.BasicBlock) (s
 	if len(edges) > 0 && edgesDominate(f, edges, blk) {
 		return "a prefix/suffix test with a literal of sufficient length holds on every way in", true
 	}
+	// (4) the tests made on the way, taken together: unit propagation over and/or/not of the
+	// branch conditions (e.g. `if a && (b || len <= 1) { return }` followed by `if !a`)
+	if why, ok := propLenProof(f, x, k, blk); ok {
+		return why, true
+	}
 	return "", false
 }
 
